@@ -479,7 +479,16 @@ fn c16_one(b: &mut Batch, words: &mut Words, notes: &mut BTreeMap<String, u64>, 
             let path_s = format!("{:?}", w.path.iter().map(|(a, e, _, t)| format!("{:x}:{:x} {}", a, e, t)).collect::<Vec<_>>());
             match &w.end {
                 arm32::End::Unknown { .. } => {
-                    b.unknown += 1;
+                    // not a sequence the interpreter knows in the entry's own instruction set. If the very same bytes
+                    // ARE a redirect to the fake when read in the OTHER instruction set, they were encoded for the
+                    // wrong one (a processor entering here in the entry's state executes something else)
+                    let other = arm32::walk(entry, !thumb, &|a| rd8(a as u64));
+                    match other.end {
+                        arm32::End::Arrived { addr, thumb: th } if addr == (fake & !1) && th == (fake & 1 == 1) && w.path.len() <= 1 => {
+                            b.fail("entry-sequence-encoded-for-the-other-instruction-set", mk(J::new().s("decodes_in_the_other_state_as", &format!("{:?}", other.path.iter().map(|(a, e, _, t)| format!("{:x}:{:x} {}", a, e, t)).collect::<Vec<_>>()))));
+                        }
+                        _ => b.unknown += 1,
+                    }
                 }
                 arm32::End::TooLong => b.fail("entry-sequence-does-not-branch", mk(J::new().s("path", &path_s))),
                 arm32::End::Arrived { addr, thumb: th } => {
